@@ -47,7 +47,7 @@ PROPS = {
         "rule": ("(server, triple) from the decision tape, then 1-6 RPCs (Update with random message and mask kind, Get with read mask, open Pull updates-only or not); every run is non-trivial (client, server and stream readers); "
                  "distinct = distinct (server/triple, RPC kind sequence) fingerprints"),
         "scenarios": [
-            {"name": "stack", "quick": 40000, "thorough": 2000000, "thorough_time": 300, "extra": ["-sim.only=get-failed,read-mask,pull-failed,pull-no-seed,pull-seed,pull-name,unrouted,rejected-update-changed-state,read-your-write,update-not-streamed,stream-order-differs,rpc-stuck,panic"]},
+            {"name": "stack", "quick": 40000, "thorough": 2000000, "thorough_time": 300, "extra": ["-sim.only=get-failed,read-mask,read-changed-state,pull-failed,pull-no-seed,pull-seed,pull-name,unrouted,rejected-update-changed-state,read-your-write,update-not-streamed,stream-order-differs,rpc-stuck,panic"]},
         ],
         "case_space": "from_worker",
         "case_space_what": "(discovered server, Get/Update/Pull triple) pairs",
@@ -152,6 +152,7 @@ PROPS = {
         "scenarios": [
             {"name": "shut-bus", "quick": 40000, "thorough": 3000000, "thorough_time": 200},
             {"name": "shut-res", "quick": 40000, "thorough": 3000000, "thorough_time": 250},
+            {"name": "shut-models", "quick": 30000, "thorough": 2000000, "thorough_time": 150},
         ],
         "require_hits": ["cancel", "abandon", "bus.collect", "bus.listen.register", "bus.send.each"],
         "assumptions": ["a listener's shutdown goroutine is delayed only in lazy runs; the late-delivery oracle applies to eager runs"],
